@@ -944,6 +944,10 @@ func (env *Env) elabCall(x *ECall) SV {
 				v = env.nilOf(env.goSV("", f.fn.params[k]))
 			}
 		}
+		// implicit conversion of a concrete value to an interface-typed parameter
+		if i < len(f.fn.params) && f.fn.params[i] != nil && v.ty != nil && v.sort != "Iface" && env.vc.sortOf(f.fn.params[i]) == "Iface" {
+			v.t = fmt.Sprintf("(mkIface %d %s)", env.vc.tagOf(v.ty), env.vc.box(v.ty, v.t))
+		}
 		args = append(args, v.t)
 	}
 	if len(f.fn.results) == 0 {
